@@ -499,13 +499,21 @@ def ft8(prog, rr):
         v = norm(pops[0].targets[0])
         rr.inst("%s.__exit__: inline block '%s'" % (c.name, v))
         uses = [n for n in walk_local(ex.node) if isinstance(n, ast.Name) and n.id == v and isinstance(n.ctx, ast.Load)]
+        ok_lists = []
         for call in calls:
             a = call.args[cl_param_idx] if len(call.args) > cl_param_idx else next((k.value for k in call.keywords if k.arg == "constraint_l"), None)
+            if isinstance(a, ast.Name):
+                # a local bound once to the list (e.g. a parameter of an inlined helper)
+                defs = [d for d in walk_local(ex.node) if isinstance(d, ast.Assign) and len(d.targets) == 1 and norm(d.targets[0]) == a.id]
+                luses = [u for u in walk_local(ex.node) if isinstance(u, ast.Name) and u.id == a.id and isinstance(u.ctx, ast.Load)]
+                if len(defs) == 1 and len(luses) == 1 and isinstance(defs[0].value, ast.List):
+                    a = defs[0].value
+            ok_lists.append(a)
             if a is None or norm(a) != "[%s]" % v:
                 rr.finding(ex, call, c.name + ".__exit__", "FT8: the inline block is not passed as this call's constraint list (argument: %s)" % (norm(a) if a is not None else "missing"))
         for u in uses:
             par = _parent(ex.node, u)
-            if not (isinstance(par, ast.List) and any(par is (call.args[cl_param_idx] if len(call.args) > cl_param_idx else None) for call in calls)):
+            if not (isinstance(par, ast.List) and any(par is a for a in ok_lists)):
                 rr.finding(ex, u, c.name + ".__exit__", "FT8: the inline block escapes the call (%s)" % norm(par)[:80])
     # do_randomize stores constraint_l elements only in per-call objects
     for n in walk_local(dr.node):
